@@ -229,6 +229,8 @@ class ReopenEngine(Engine):
                     steps.append({"op": "sync"})  # save now, keep using the same Project object
                     continue
                 steps.append({"op": "reopen"})
+                if rng.random() < 0.1:
+                    steps[-1]["transient_read_fault"] = True
                 if rng.random() < 0.2:
                     steps.append({"op": "reopen"})
                 continue
@@ -334,6 +336,8 @@ class ReopenEngine(Engine):
                 if op == "reopen":
                     A.clock.advance(1_000_000_000)
                     B.clock.advance(1_000_000_000)
+                    if st.get("transient_read_fault") and not self._session_with_unreadable_history(out, B, i):
+                        break
                     if not self._reopen(out, B, i, prefix):
                         break
                     reopened = True
@@ -477,6 +481,62 @@ class ReopenEngine(Engine):
             out.violate("history_lost_on_reopen", {"op": "limit_epilogue", "what": "undo list"},
                         {"step": i, "before": kept, "after": loaded}, where=i)
         out.log.add(ev="limit_epilogue", i=i, limit=new_limit, kept=kept)
+
+    def _session_with_unreadable_history(self, out, B, i):
+        """A whole session in which the saved history could not be read (a transient error of the
+        read, e.g. EMFILE): the project is closed, opened, its history asked for once - which
+        fails -, and closed again.  The history on disk must survive that session untouched."""
+        import builtins
+        import errno
+
+        import rope.base.project as rp
+
+        hist_path = os.path.join(B.root, *(B.ropefolder or ROPEFOLDER).split("/"), "history")
+        B.use()
+        try:
+            B.project.close()
+        except Exception as e:
+            out.violate("close_raised", {"op": "reopen", "exc": type(e).__name__}, {"step": i, "exc": repr(e)[:300]}, where=i)
+            return False
+        if not os.path.exists(hist_path):
+            B.open()
+            return True
+        before = open(hist_path, "rb").read()
+        B.open()
+
+        def failing_open(file, mode="r", *a, **kw):
+            if os.path.realpath(os.fspath(file)) == os.path.realpath(hist_path) and "r" in mode:
+                raise OSError(errno.EMFILE, "injected fault (too many open files)")
+            return builtins.open(file, mode, *a, **kw)
+
+        had = rp.__dict__.get("open")
+        rp.open = failing_open
+        try:
+            try:
+                B.project.history
+                asked = "returned"
+            except OSError:
+                asked = "raised"
+        finally:
+            if had is None:
+                del rp.open
+            else:
+                rp.open = had
+        out.stats["fired_history_read_fault"] += 1
+        out.stats["exec_history_read_fault"] += 1
+        try:
+            B.project.close()
+        except Exception as e:
+            out.violate("close_raised", {"op": "reopen", "exc": type(e).__name__, "after": "unreadable history"},
+                        {"step": i, "exc": repr(e)[:300]}, where=i)
+            return False
+        after = open(hist_path, "rb").read() if os.path.exists(hist_path) else None
+        B.open()
+        if after != before:
+            out.violate("history_lost_on_reopen", {"op": "reopen", "what": "file rewritten by a session that could not read it"},
+                        {"step": i, "asked": asked, "size_before": len(before), "size_after": None if after is None else len(after)}, where=i)
+            return False
+        return True
 
     def _reopen(self, out, B, i, prefix):
         p = B.project
